@@ -104,10 +104,10 @@ def grammar_jobs(thorough, seed):
         job("G2: every 2-statement program, <= 4 expansions", gcfg(2, 2, 4, 0, 0, False), workers=8, exhaustive=True)
         job("GM: every single token mutation of every <= 2-expansion program", gcfg(1, 1, 2, 1, 0, False, charmuts=False), workers=8, exhaustive=True)
         job("GC: every single character mutation of every 1-expansion program", gcfg(1, 1, 1, 1, 0, False, charmuts=True), workers=8, exhaustive=True)
-        for i in range(4):
+        for i in range(3):
             job("S1.%d: simulated 1-4 statements, <= 3 mutations" % i, gcfg(1, 4, 100000, 3, 1, True), sim=15000, depth=400,
                 sd=seed * 7 + 11 + i, workers=1)
-        for i in range(4):
+        for i in range(3):
             job("S2.%d: simulated 5-25 statements, <= 3 mutations" % i, gcfg(5, 25, 100000, 3, 2, True), sim=2500, depth=1500,
                 sd=seed * 7 + 21 + i, workers=1)
         for i in range(2):
@@ -324,8 +324,8 @@ def main(run):
     run.note("rejected_traces_texts", len(bad))
     # confirmation in a process of its own (5 s of CPU).  Hangs are expensive to confirm: those of texts with a cyclic
     # definition (the open finding) and, beyond a cap, the longest of the others are reported from the first run
-    cyc_cap = 200 if thorough else 6
-    hang_cap = 400 if thorough else 32
+    cyc_cap = 40 if thorough else 6
+    hang_cap = 100 if thorough else 32
     for idx, (h, o, clause) in bad.items():
         if clause == "malformed":
             raise MachineryError(f"malformed trace for {bytext[idx]!r}")
